@@ -43,6 +43,7 @@ def main():
     ap.add_argument('--tier', default=os.environ.get('VERIF_TIER', 'quick'), choices=['quick', 'thorough'])
     ap.add_argument('--replay')
     ap.add_argument('--update-baseline', action='store_true')
+    ap.add_argument('--no-evidence', action='store_true', help='do not rewrite evidence/<id>.json (used by bin/seedtest --copy)')
     ap.add_argument('--no-kani', action='store_true', help='debugging aid: skip the Kani back end (run is then UNDECIDED at best)')
     args = ap.parse_args()
     prop = args.prop
@@ -286,7 +287,7 @@ def main():
         wall_s=round(wall, 2),
         violations=len(violations),
     )
-    if not only_obl:
+    if not only_obl and not args.no_evidence:
         json.dump(ev, open(os.path.join(ROOT, 'evidence', '%s.json' % prop), 'w'), indent=1)
 
     for l in out_lines:
